@@ -381,6 +381,10 @@ def metadata(case):
     if case['header'] != 'present':
         dialect['header'] = False
         dialect['headerRowCount'] = 0
+    if len(case['cols']) % 2 == 0:
+        # the CSVW default, spelt out: only a LINE that begins with the
+        # prefix is a comment, not a '#' inside a value
+        dialect['commentPrefix'] = '#'
     md = {'@context': 'http://www.w3.org/ns/csvw', 'url': 'data.csv',
           'dialect': dialect, 'tableSchema': {'columns': cols}}
     style = case.get('md_style', 'dialect')
